@@ -4,41 +4,62 @@ CFG = {'lean_modules': ['ObiVerif.Props.C12'],
  'gen': True,
  'thorough_seeds': 8,
  'rule': 'cases = (sample sheet, read): sheets rendered in the old ngsfilter text or in CSV with @param lines (1-3 markers, plain or IUPAC primers, tag lengths '
-         '0/3..9 per side, asymmetric and absent tags, shared tags between samples, strict/hamming/indel, spacers 0..3, tag delimiters, rescue indels, primer '
+         '0/3..9 per side, asymmetric and absent tags, shared tags between samples, strict/hamming/indel, spacers 0..3 (unequal on the two sides), tag delimiters, rescue indels, primer '
          'budgets 0..4 and -e override, global / forward_ / reverse_ / per-primer parameter forms, comments, upper case, permuted columns, extra annotation '
          'column) read by the real ReadNGSFilter; reads BUILT from a declared sample: flank + tag + spacer + primer instance + barcode + rc(primer instance) + '
-         'rc(spacer) + rc(tag) + flank in both orientations, primer mismatches within and beyond the budget, tag errors, missing priming sites, chimeras of '
-         '1..3 amplicons, truncated reads; hand-picked sheets (inconsistent tag lengths, a primer used twice, close primers, duplicated tag pair, empty read, '
-         'primer dimers); unit cases of Hamming / Levenshtein / lookForTag / lookForRescueTag; non-trivial = distinct well-formed case',
+         'rc(spacer) + rc(tag) + flank in both orientations (1/6 of the reads without left / right flank: the outer tag touches the read end), primer mismatches '
+         'within and beyond the budget, tag errors incl. built ties between two declared tags, missing priming sites, chimeras of '
+         '1..3 amplicons, truncated reads; expectations (generator intent + strand symmetry) are checked for fixed-length AND delimited tags; hand-picked sheets '
+         '(inconsistent tag lengths, a primer used twice, close primers, duplicated tag pair, empty read, '
+         'primer dimers); unit cases of Hamming / Levenshtein / lookForTag / lookForRescueTag; `sheet` cases: generated CSV records (0..12 @param lines over the 16 '
+         'parameter names + unknown names, 0/1/2/3 values, per-primer forms with known / unknown / upper-case primers, valid and invalid integers, delimiters, '
+         'booleans, matching modes; permuted / duplicated / missing columns, extra columns, tag forms a:b, a, -:b, a:-, -, "", a:b:c, duplicated tag pairs, shared primers, '
+         'rows of the wrong width, header only, @param after the header; decorated with leading blanks, comments, CRLF, no final newline) and old-format lines '
+         '(blank / comment lines, tabs, 5..7 fields, annotation parts) read by the real ReadNGSFilter and by the model of the reader; non-trivial = distinct well-formed case',
  'technique': 'Lean 4 theorems on a transcription of multimatch.go (distances, tag extractors, nearest-unique-tag loop, sample identification, the '
-              'forward->reverse state machine) + differential correspondence with the real ReadNGSFilter + ExtractMultiBarcodeSliceWorker, the primer hits '
+              'forward->reverse state machine) and of the semantic part of ngsfilter_read.go + the setters of ngslibrary.go / marker.go + differential correspondence '
+              'with the real ReadNGSFilter (library dump: every parameter, tag length, sample, annotation of every marker, or sheet-error / fatal / panic) and '
+              'ExtractMultiBarcodeSliceWorker, the primer hits '
               'being obtained from the real matcher (C10) and handed to the model as data + generator-knows-the-answer oracle, strand-symmetry oracle, '
-              'brute-force safety oracle and determinism oracle on the real code',
- 'level_text': 'Proved in Lean for all inputs on the transcription of multimatch.go: hamming_spec; levenshtein_is_edit_distance (the two-row programme = the textbook '
-               'recurrence on the strings read from their last character); closest_unique / closest_unique_complete / closest_unique_perm (a tag is returned iff '
+              'brute-force safety oracle and determinism oracles (demultiplexing and sheet reading) on the real code',
+ 'level_text': 'Proved in Lean for all inputs on the transcription of multimatch.go: hamming_spec; levenshtein_is_edit_distance + levenshtein_eq_editDist (the two-row '
+               'programme = the textbook recurrence on the strings AS GIVEN: the recurrence is proved invariant under reversal) + levenshtein_min_script (= the cost of a '
+               'cheapest edit script, inductive specification Align, independent of any recurrence) + levenshtein_metric (zero iff equal, symmetric, triangle inequality, '
+               'length bounds); closest_unique / closest_unique_complete / closest_unique_perm (a tag is returned iff '
                'it is the unique minimiser, whatever the order in which the Go map delivers the tags); never_wrong_sample (a sample is returned only if the '
                'proposed pair is declared for it and each proposed tag is identified from the extracted tag under strict / hamming / indel), under the hypothesis '
                'that CheckTagLength accepted the sheet (wf_tags_nonempty, tagExtractor_untagged), with the counterexample wrong_sample_without_taglength_check '
-               '(the input that failed on the unrepaired code); unassigned_is_flagged / no_amplicon_is_flagged; constructed_read (any flanks, spacers, fixed tags '
-               'incl. absent ones, any marker position in the sheet, all three modes: exactly one amplicon = barcode, forward, matches, tags, declared sample, '
-               'given primer hits at the built sites only); constructed_read_rc and strand_symmetry (the reverse-complemented built read with the mirrored hits '
-               'gives the same amplicon, direction flipped); machine_selects_adjacent_pairs and pairing_strand_symmetric (chimeras: the state machine extracts '
-               'exactly the adjacent forward/complementary hit pairs, and that selection is mirror-symmetric). The model is tied to /repo by running the real '
-               'ReadNGSFilter + ExtractMultiBarcodeSliceWorker on generated sheets (both formats) and built reads and comparing every returned record '
+               '(the input that failed on the unrepaired code), and accepted_sheet_never_wrong_sample: that hypothesis is discharged for every marker of a sheet accepted by '
+               'the model of ReadNGSFilter in either format (accepted_sheet_wellformed: primer unicity survives the @param lines, CheckTagLength holds; '
+               'params_touch_parameters_only: no @param line, whatever its name / arity / value, changes primers or the tag pair -> sample table); '
+               'unassigned_is_flagged / no_amplicon_is_flagged; constructed_read (fixed tags) and constructed_read_any_tags (each side fixed-length OR delimited without '
+               'rescue: any flanks, the declared spacers, absent tags, any marker position in the sheet, all three modes: exactly one amplicon = barcode, forward, matches, tags, declared sample, '
+               'given primer hits at the built sites only); constructed_read_rc(_any_tags) and strand_symmetry(_any_tags) (the reverse-complemented built read with the mirrored hits '
+               'gives the same amplicon, direction flipped — the different window widths of the two delimited extractors are proved immaterial on built reads, and '
+               'delimited_window_asymmetry shows the exact read shape, outside built reads, where they matter); machine_selects_adjacent_pairs and pairing_strand_symmetric (chimeras: the state machine extracts '
+               'exactly the adjacent forward/complementary hit pairs, and that selection is mirror-symmetric). The models are tied to /repo by running the real '
+               'ReadNGSFilter on generated CSV records / old-format lines (library dump compared with the model of the reader) and ReadNGSFilter + '
+               'ExtractMultiBarcodeSliceWorker on generated sheets (both formats) and built reads, comparing every returned record '
                '(id, sequence, all annotations) with the model fed with the primer hits of the real matcher; oracles on the real code: generator intent, '
-               'strand symmetry (incl. chimeras), brute-force safety, determinism over repeated runs, sheet-as-read = sheet-as-declared.',
- 'level_note': 'Trusted: Lean kernel; the transcription Model/Demux.lean; the primer matcher (hits are data, C10). Partial: strand symmetry of what each '
-               'selected pair yields is proved for built reads with fixed-length tags only (delimited tags use windows of different widths on the two sides — '
-               'exercised for the safety clause only, as the property says); for arbitrary chimeras it is the harness oracle. The edit-distance specification is '
-               'stated on reversed strings (prefix recurrence); its invariance under reversal is not proved. Sheet parsing (mimetype sniffing, encoding/csv, '
-               'ParseOBIFeatures) is exercised through the real reader and compared with the declared sheet, not modelled. Open finding (code left as it is, modelled as it is, theorem gating_breaks_symmetry): the hits of a complemented primer are collected only when the partner primer hits somewhere, so in reads with lone priming sites a hit lying between a forward hit and its complementary hit can be invisible to the state machine (pseudo-amplicon, and a different answer on the other strand). Three defects repaired in /repo '
+               'strand symmetry (incl. chimeras and delimited tags), brute-force safety, determinism over repeated runs, sheet-as-read = sheet-as-declared.',
+ 'level_note': 'Trusted: Lean kernel; the transcriptions Model/Demux.lean and Model/NgsFilter.lean; the primer matcher (hits are data, C10). Partial: strand symmetry of what each '
+               'selected pair yields is proved for built reads with fixed-length or delimited tags; the rescue extractors (delimiter + tag indels) are modelled and compared '
+               'but no positive theorem is proved about them (the property exercises them for the safety clause only: never_wrong_sample covers them); for arbitrary '
+               'chimeras symmetry is the harness oracle. The sheet reader is modelled from the CSV records / the lines on: the byte-level layers (mimetype text sniffing other '
+               'than the two CSV detectors, encoding/csv quoting / comments / TrimLeadingSpace, bufio line splitting) are exercised, not modelled; the annotation part of the old '
+               'format is modelled for the sub-grammar key=word; only (ParseOBIFeatures is C02); text is ASCII. A CSV text that is not detected as CSV is assumed to be '
+               'rejected by the old reader (no line with six blank-separated fields). Observation (not a property violation, no patch): OBIMimeNGSFilterTypeGuesser '
+               'registers one more CSV detector in the global mimetype tree at every call, so repeated readings get slower (the harness reads each sheet once per library). '
+               'Open finding (code left as it is, modelled as it is, theorem gating_breaks_symmetry): the hits of a complemented primer are collected only when the partner primer hits somewhere, so in reads with lone priming sites a hit lying between a forward hit and its complementary hit can be invisible to the state machine (pseudo-amplicon, and a different answer on the other strand). Three defects repaired in /repo '
                '(tag-length error dropped, map-order dependence, primer-unicity error dropped): the model is of the repaired behaviour.',
  'trusted_base': LEAN_TB + ['the primer hits (AllMatches of the four compiled patterns of each marker) are data of the model: the matcher is property C10',
                             'pkg/obingslibrary/verif_hooks.go (read-only accessors to the compiled patterns, the sample table and the two private scanners)',
-                            'the sheet renderer and the reference identification (naive Hamming / memoised recursive edit distance / unique minimiser) of the harness',
-                            'mimetype detection of the sheet format and encoding/csv (exercised, not modelled)'],
+                            'the sheet renderers (markers -> text, CSV records -> text) and the reference identification (naive Hamming / memoised recursive edit distance / unique minimiser) of the harness',
+                            'encoding/csv, bufio and the generic part of mimetype detection (exercised, not modelled)'],
  'modelled': 'pkg/obingslibrary multimatch.go (Hamming, Levenshtein, lookForTag, lookForRescueTag, begin/end Fixed/Delimited/Rescue tag extractors, TagExtractor, '
-             'ClosestForwardTag/ClosestReverseTag, SampleIdentifier, ExtractMultiBarcode), marker.go (CheckTagLength), ngslibrary.go (CheckPrimerUnicity); '
-             'ngsfilter_read.go is exercised through the real reader (its result is compared with the declared sheet)',
+             'ClosestForwardTag/ClosestReverseTag, SampleIdentifier, ExtractMultiBarcode), marker.go (CheckTagLength, GetPCR, the Set… setters, normalizeTagDelimiter), '
+             'ngslibrary.go (GetMarker, CheckPrimerUnicity, Set… / Set…For); pkg/obiformats ngsfilter_read.go (ReadNGSFilter, ReadCSVNGSFilter from the records on, '
+             'ReadOldNGSFilter from the lines on, _parseMainNGSFilter(Tags), the table library_parameter, NGSFilterCsvDetector + the text/csv detector of mimetype)',
  'assumptions': ['reads and tags are made of a/c/g/t (the reverse complement is the involution proved in C07 on its alphabet)',
-                 'PCR annotation values are plain words (typed values of the old format are C02)']}
+                 'PCR annotation values are plain words (typed values of the old format are C02)',
+                 'sample sheets are ASCII; CSV fields contain no comma, quote or line break']}
